@@ -9,8 +9,9 @@ import os, sys, json, time, struct, random, subprocess, fcntl, re, hashlib, trac
 
 HERE = os.path.dirname(os.path.abspath(__file__))
 VERIF = os.path.dirname(HERE)
-LEAN = os.path.join(VERIF, 'lean')
-DRIVER = os.path.join(LEAN, '.lake', 'build', 'bin', 'driver')
+LEAN = os.environ.get('VERIF_LEAN') or os.path.join(VERIF, 'lean')   # VERIF_LEAN: isolated copy for mutant self-tests
+def driver_path(pid):
+    return os.path.join(LEAN, '.lake', 'build', 'bin', 'drv' + pid)
 REPO = os.environ.get('NITIME_REPO', '/repo')
 ALLOWED_AXIOMS = {'propext', 'Classical.choice', 'Quot.sound'}
 FORBIDDEN = re.compile(r'\bsorry\b|\badmit\b|^axiom |native_decide|bv_decide|implemented_by|\bunsafe |maxHeartbeats 0')
@@ -216,9 +217,10 @@ def lean_files_of(targets):
 
 
 # ----------------------------------------------------------------------------- driver
-def run_driver(lines, timeout=3000):
+def run_driver(pid, lines, timeout=3000):
     if not lines:
         return []
+    DRIVER = driver_path(pid)
     if not os.path.exists(DRIVER):
         raise Infra('driver executable missing: ' + DRIVER)
     data = '\n'.join(lines) + '\n'
@@ -250,8 +252,8 @@ class Case:
 class Failure:
     """a property failure shown on the implementation by the independent oracle"""
 
-    def __init__(self, key, what, replay):
-        self.key, self.what, self.replay = key, what, replay
+    def __init__(self, key, what, replay, case=None):
+        self.key, self.what, self.replay, self.case = key, what, replay, case
 
 
 def err_kind(e):
@@ -275,11 +277,21 @@ def call(fn, *a, **k):
 
 # ----------------------------------------------------------------------------- findings
 def load_findings(pid):
+    """known (recorded, unrepaired) findings of this property: {key pattern: entry}.
+    Keys are fnmatch patterns over the oracle's failure keys (clause/call-site/symptom)."""
     p = os.path.join(VERIF, 'known_findings.json')
     if not os.path.exists(p):
         return {}
     d = json.load(open(p))
     return {f['key']: f for f in d.get('findings', []) if f.get('property') == pid and f.get('status') == 'known'}
+
+
+def match_known(key, known):
+    import fnmatch
+    for pat in known:
+        if key == pat or fnmatch.fnmatchcase(key, pat):
+            return pat
+    return None
 
 
 # ----------------------------------------------------------------------------- the check
@@ -302,9 +314,8 @@ class Check:
                                   {k: (v if len(json.dumps(v, default=str)) < 600 else '…') for k, v in echo.items()}}
         if echo.get('errors'):
             self.broken += ['translator: ' + e for e in echo['errors']]
-        targets = list(mod.LEAN_TARGETS) + ['driver']
         # the driver must exist even when a proof module fails: build it first
-        ok_d, out_d, br_d = lake_build(['driver'])
+        ok_d, out_d, br_d = lake_build(['drv' + self.pid])
         if not ok_d:
             raise Infra('driver does not build:\n' + out_d[-3000:])
         ok, out, br = lake_build(mod.LEAN_TARGETS)
@@ -313,7 +324,7 @@ class Check:
         if ok:
             thms, problems, wanted = audit(self.pid)
             self.broken += ['audit: ' + p for p in problems]
-        files = lean_files_of(list(mod.LEAN_TARGETS) + ['Nitime.Model.Registry'])
+        files = lean_files_of(list(mod.LEAN_TARGETS) + ['Nitime.Model.' + self.pid])
         fb = grep_forbidden(files)
         self.broken += ['forbidden: ' + p for p in fb]
         self.cov['obligations'] = max(len(wanted), 1) if ok else max(len(wanted), len(br), 1)
@@ -334,7 +345,7 @@ class Check:
     def step_correspondence(self):
         rng = make_rng(self.pid, self.seed, 'corr')
         cases = list(self.mod.cases(rng, self.tier, self.seed))
-        outs = run_driver([c.line for c in cases])
+        outs = run_driver(self.pid, [c.line for c in cases])
         mism, per_clause, distinct = [], {}, set()
         for c, o in zip(cases, outs):
             c.model = o
@@ -358,8 +369,6 @@ class Check:
             mism.sort(key=lambda c: len(c.line))
             for c in mism[:5]:
                 self.log('DISAGREE', c.clause, '\n   op   :', c.line[:400], '\n   impl :', c.impl[:300], '\n   model:', (c.model or '')[:300])
-            self.broken.append('correspondence: %d of %d cases disagree (clauses: %s); smallest: %s  impl=%s  model=%s' % (
-                len(mism), len(cases), sorted({c.clause for c in mism}), mism[0].line[:300], mism[0].impl[:200], (mism[0].model or '')[:200]))
         self.log('correspondence: %d cases, %d disagree' % (len(cases), len(mism)))
 
     def step_oracle(self):
@@ -377,7 +386,22 @@ class Check:
         rc = 0
         seen_known, unlisted = {}, {}
         for f in self.fails:
-            (seen_known if f.key in known else unlisted).setdefault(f.key, f)
+            pat = match_known(f.key, known)
+            if pat:
+                seen_known.setdefault(pat, f)
+            else:
+                unlisted.setdefault(f.key, f)
+        # a disagreement between model and implementation is *explained* when the independent
+        # oracle shows the implementation failing the property on that very case under a recorded
+        # finding (the model follows the intended behaviour there); otherwise it is a broken tie
+        mism = getattr(self, 'mism', [])
+        expl = {id(f.case) for f in self.fails if f.case is not None and match_known(f.key, known)}
+        unexplained = [c for c in mism if id(c) not in expl]
+        self.cov['disagreements_explained_by_known_findings'] = len(mism) - len(unexplained)
+        if unexplained:
+            c0 = unexplained[0]
+            self.broken.append('correspondence: %d of %d cases disagree (clauses: %s); smallest: %s  impl=%s  model=%s' % (
+                len(unexplained), len(self.cases), sorted({c.clause for c in unexplained})[:12], c0.line[:300], c0.impl[:200], (c0.model or '')[:200]))
         for k, f in sorted(seen_known.items()):
             print('KNOWN-FINDING: property=%s %s — %s' % (self.pid, k, known[k].get('what', f.what)))
         rdir = os.path.join(VERIF, 'replays', self.pid)
@@ -399,7 +423,7 @@ class Check:
                        'what': 'theorem / translator artefact / correspondence that no longer checks',
                        'broken': self.broken, 'seed': self.seed, 'tier': self.tier,
                        'disagreements': [{'op': c.line, 'impl': c.impl, 'model': c.model, 'clause': c.clause}
-                                         for c in getattr(self, 'mism', [])[:20]]}, open(path, 'w'), indent=1, default=str)
+                                         for c in unexplained[:20]]}, open(path, 'w'), indent=1, default=str)
             for b in self.broken[:10]:
                 print('BROKEN:', b[:600])
             print('VIOLATION property=%s replay=%s no-failing-input-found' % (self.pid, os.path.relpath(path, VERIF)))
@@ -421,8 +445,9 @@ class Check:
         ev = {'property_id': self.pid, 'tier': self.tier, 'seed': int(self.seed), 'level': 'proof',
               'coverage': cov, 'assumptions': list(getattr(self.mod, 'ASSUMPTIONS', [])),
               'wall_s': round(time.time() - self.t0, 2), 'violations': getattr(self, 'violations', 0)}
-        os.makedirs(os.path.join(VERIF, 'evidence'), exist_ok=True)
-        p = os.path.join(VERIF, 'evidence', self.pid + '.json')
+        evdir = os.environ.get('VERIF_EVIDENCE_DIR') or os.path.join(VERIF, 'evidence')
+        os.makedirs(evdir, exist_ok=True)
+        p = os.path.join(evdir, self.pid + '.json')
         json.dump(ev, open(p + '.tmp', 'w'), indent=1, default=str)
         os.replace(p + '.tmp', p)
 
